@@ -443,10 +443,13 @@ func main() {
 	fmt.Fprintln(&b, "(* GENERATED by go2v from the Go source - do not edit *)")
 	fmt.Fprintln(&b, "From Coq Require Import ZArith List Bool.\nFrom GH Require Import Base.GoSem Base.Result Base.FloatBits Base.TimeSem Gen.GoConsts.\nImport ListNotations.\nOpen Scope Z_scope.\n")
 	decls := map[string]*ast.FuncDecl{}
-	for _, f := range files {
+	for fi, f := range files {
 		for _, d := range f.Decls {
 			if fd, ok := d.(*ast.FuncDecl); ok {
 				name := fd.Name.Name
+				if name == "init" && fd.Recv == nil { // a package may have several init functions
+					name = "init@" + fileNames[fi]
+				}
 				if fd.Recv != nil && len(fd.Recv.List) == 1 {
 					name = recvName(fd.Recv.List[0].Type) + "." + name
 				}
